@@ -51,6 +51,16 @@ def gen_one(rng, i, tier):
         return {"stream": "exhaustive", "pos": list(_MS[a]), "neg": list(_MS[b]), "ep": e // 3, "en": e % 3,
                 "sc": sc, "ec": ec, "sorted": False, "ts": list(_EXH_TS), "shape": [len(_EXH_TS)],
                 "dtype": "float", "via": "ctor", "poslabel": 1}
+    if i % 700 == 350:
+        # pointwise_cm on a LARGE problem (several million sample x threshold pairs: anything that works through the samples
+        # in blocks has a last, partial block): every sample lands in exactly one cell at every threshold
+        n_ = rng.randint(2800, 3300)
+        vals = [rng.randint(-4000, 4000) / 8.0 for _ in range(n_)]
+        k_ = rng.randint(n_ // 3, 2 * n_ // 3)
+        sc, ec = rng.choice(gen.CFGS)
+        return {"stream": "bigpw", "pos": vals[:k_], "neg": vals[k_:], "ep": 0, "en": 0, "sc": sc, "ec": ec, "sorted": False,
+                "ts": [], "shape": [0], "dtype": "float", "via": "ctor", "poslabel": 1, "T": rng.randint(2900, 3100),
+                "tseed": rng.randint(0, 2**31 - 1)}
     stream = "exact" if i % 2 == 0 else "generic"
     pos, neg = gen.score_sets(rng, stream)
     ep, en = gen.easy_counts(rng, stream, len(pos), len(neg))
@@ -109,6 +119,8 @@ def gen_one(rng, i, tier):
 
 
 def nontrivial(inp):
+    if inp.get("stream") == "bigpw":
+        return True
     allv = set(inp["pos"]) | set(inp["neg"])
     return (any(t in allv for t in inp["ts"]) or bool(set(inp["pos"]) & set(inp["neg"]))
             or inp["ep"] > 0 or inp["en"] > 0 or (inp["sc"], inp["ec"]) != ("pos", "pos")
@@ -140,9 +152,62 @@ def _tags(inp):
     return tuple(t)
 
 
+def _build_bigpw(inp) -> Case:
+    from score_analysis import pointwise_cm
+    import random as _r
+
+    inp = dict(inp)
+    pos, neg = inp["pos"], inp["neg"]
+    allsc = pos + neg
+    rr = _r.Random(inp["tseed"])
+    ts = [rr.choice(allsc) + rr.choice([0.0, 0.0, 0.0625, -0.0625]) for _ in range(inp["T"])]
+    labels = np.array([1] * len(pos) + [0] * len(neg))
+    perm = np.random.RandomState(inp["tseed"] % (2**31)).permutation(len(allsc))
+    sco = np.array(allsc, dtype=float)
+    pre = []
+    r = common.call(pointwise_cm, labels[perm], sco[perm], np.array(ts), pos_label=1, score_class=inp["sc"], equal_class=inp["ec"])
+    if r[0] == "exc":
+        return Case(ID, inp, [], lambda outs: [], ("bigpw",), 0,
+                    [Issue("PROPFAIL", "raises", f"pointwise_cm on {len(allsc)} samples x {len(ts)} thresholds raised {r[1]}: {r[2]}",
+                           f"pointwise/raises/{r[1]}")])
+    pw = np.asarray(r[1])
+    if list(pw.shape) != [len(allsc), len(ts), 2, 2]:
+        return Case(ID, inp, [], lambda outs: [], ("bigpw",), 0,
+                    [Issue("PROPFAIL", "shape", f"pointwise_cm shape {pw.shape} for {len(allsc)} samples x {len(ts)} thresholds", "pointwise/shape")])
+    percell = pw.reshape(len(allsc), len(ts), 4).sum(axis=-1)
+    bad = np.argwhere(percell != 1)
+    if len(bad):
+        j_, k_ = int(bad[0][0]), int(bad[0][1])
+        pre.append(Issue("PROPFAIL", "pointwise", f"pointwise_cm on {len(allsc)} samples x {len(ts)} thresholds: sample #{j_} (of the call's "
+                         f"order) lies in {int(percell[j_, k_])} cells at threshold #{k_}; {len(set(bad[:, 0].tolist()))} samples are affected",
+                         "pointwise/large/not-one-cell"))
+    sel = sorted(rr.sample(range(len(ts)), 8))
+    sums = pw[:, sel].sum(axis=0).reshape(-1, 2, 2)
+    ipw = [int(v) for m in sums for v in (m[0, 0], m[0, 1], m[1, 0], m[1, 1])]
+    tsel = [ts[k] for k in sel]
+    del pw
+    ln = line("pwcm", lab=il([1] * len(pos) + [0] * len(neg)), sco=ql(allsc), sc=inp["sc"], ec=inp["ec"], ts=ql(tsel), icms=il(ipw))
+    inp["_evals"] = len(ts)
+
+    def judge(outs):
+        o2 = outs[0]
+        iss = []
+        if common.pints(o2["ms"]) != ipw:
+            iss.append(Issue("DISAGREE", "pointwise", f"large problem: model={o2['ms']} impl={ipw}", "pointwise/cells"))
+        for k, b in enumerate(common.plist(o2["spec.pointwise"])):
+            if b != "1":
+                iss.append(Issue("PROPFAIL", "pointwise", f"pointwise_cm on {len(allsc)} samples x {len(ts)} thresholds: the sum over samples at "
+                                 f"threshold {tsel[k]} = {ipw[4*k:4*k+4]} is not the count by the decision rule", "pointwise/large/cells"))
+        return iss
+
+    return Case(ID, inp, [ln], judge, ("bigpw", f"cfg={inp['sc']},{inp['ec']}", "pointwise>2^22-pairs"), 0, pre)
+
+
 def build(inp) -> Case:
     from score_analysis import Scores, pointwise_cm
 
+    if inp.get("stream") == "bigpw":
+        return _build_bigpw(inp)
     inp = dict(inp)
     inp["ts"] = [common.unjson_num(x) for x in inp["ts"]]
     pos, neg = [common.unjson_num(x) for x in inp["pos"]], [common.unjson_num(x) for x in inp["neg"]]
